@@ -83,6 +83,7 @@ LONG_FAMILIES = [
 # families made of MANY small lexemes (one merged token / one gap): the extracted scanner is quadratic on them (unary offsets),
 # so they are judged by the tiling oracle on the real output only and left out of the model comparison
 LONG_MONITOR_ONLY = {"merged-text", "merged-nonascii", "ebad-run", "nonbmp"}
+LONG_MODEL_MAX = 140000
 # total lexeme lengths: around every width a length/offset field could have (8, 15, 16, 17 bits), and well beyond
 LONG_LENGTHS = {"quick": [65535, 65536, 65537, 70000, 131077], "thorough": [32767, 32768, 65535, 65536, 65537, 70000, 131071, 131072,
                                                                           131077, 196613, 262147, 1048583]}
@@ -104,7 +105,7 @@ def long_cases(rng, tier):
                 ctxs = LONG_CONTEXTS
             else:
                 ctxs = [LONG_CONTEXTS[0], LONG_CONTEXTS[2] if name.startswith("bol-") else LONG_CONTEXTS[1]]
-            for before, after in (ctxs if embed else ctxs[:1]):
+            for before, after in (ctxs if embed and L < 200000 else ctxs[:1]):
                 segs = [[before, len(before)], [lead, len(lead)], [pre, len(pre)], [unit, body], [suf, len(suf)], [after, len(after)]]
                 cases.append(("%s/%d/%s" % (name, L, "alone" if not before else "embedded"), [s for s in segs if s[1] > 0]))
     return cases
@@ -175,6 +176,15 @@ def generate(src):
     return c10_rules.generate(src)
 
 
+def _big_stack():
+    """the extracted scanner recurses once per code point of a lexeme (unary offsets): lift the stack limit for the driver"""
+    import resource
+    try:
+        resource.setrlimit(resource.RLIMIT_STACK, (resource.RLIM_INFINITY, resource.RLIM_INFINITY))
+    except (ValueError, OSError):
+        pass
+
+
 def run_shard(job):
     """harness (real code) -> model -> compare.  Returns dict with counts, disagreements, hits."""
     spec, exe, src = job
@@ -189,7 +199,7 @@ def run_shard(job):
         b = a
     else:
         with open(spec["inp"]) as fi, open(mout, "w") as fo:
-            p = subprocess.run([exe], stdin=fi, stdout=fo, stderr=subprocess.PIPE, timeout=3000)
+            p = subprocess.run([exe], stdin=fi, stdout=fo, stderr=subprocess.PIPE, timeout=3000, preexec_fn=_big_stack)
         if p.returncode != 0:
             raise RuntimeError("model driver failed: " + p.stderr.decode("utf8", "replace")[-500:])
         b = open(mout, "rb").read()
@@ -238,7 +248,8 @@ def check(run):
                 "rules between 52 prefixes and 10 suffixes, a LONG-LEXEME family (one lexeme per unbounded repetition of the rules - " + str(len(LONG_FAMILIES))
                 + " families: line-start table/section/list/rule markup, 6 URL schemes bare and bracketed, uniq marker parts, alphanumerics, '_', '=', "
                 "newline runs, quotes, tag name/attribute, comment, entities, merged text, U+EBAD run - of total length 255..257, 32767/8, "
-                "65535, 65536, 65537, 70000, 131077 and a seeded random length (thorough: up to 2^20+7), alone and embedded in ordinary text), "
+                "65535, 65536, 65537, 70000, 131077 and a seeded random length (thorough: up to 2^20+7), alone and embedded in ordinary text; the model comparison leaves out texts of more than 140000 code points and the four "
+                "many-small-lexeme families, on which the extracted scanner is quadratic - the tiling oracle judges them all), "
                 "plus seeded random long texts (lexeme soup, hot characters, table-like documents, "
                 "arbitrary code points). distinct = distinct text; non-trivial = real output has >=2 tokens or the text contains "
                 "U+EBAD or NUL")
@@ -251,7 +262,9 @@ def check(run):
         "(PyUnicode_AsUCS4Copy, 32 NUL sentinels): covered only by the differential run against the rebuilt _uscan.cc",
     ]
     run.assumptions = ["code points are arbitrary naturals in the model (the real scanner sees Py_UCS4 <= 0x10FFFF, lone surrogates included)",
-                       "int overflow of tablemode / token offsets is not modelled (needs > 2^31 characters)"]
+                       "the `int` fields of the real scanner are unbounded naturals in the model; C10_fields_fit_int proves that every start, "
+                       "length, end offset and token index stays below 2^31 when the text has fewer than 2^31 code points "
+                       "(tablemode is bounded by the number of tokens); texts beyond that are not covered"]
     src = core.snapshot()
     info = {}
 
@@ -304,14 +317,17 @@ def check(run):
     # long-lexeme family (harness builds the texts from segments and writes the model's input itself)
     lcases = long_cases(run.rng, run.tier)
     nshard_long = 12 if run.tier == "quick" else 32
-    tied = [c for c in lcases if c[0].split("/")[0] not in LONG_MONITOR_ONLY]
-    untied = [c for c in lcases if c[0].split("/")[0] in LONG_MONITOR_ONLY]
+    def model_ok(c):        # the extracted scanner (unary offsets, lists) is only practical up to ~2*10^5 code points per text
+        return c[0].split("/")[0] not in LONG_MONITOR_ONLY and int(c[0].split("/")[1]) <= LONG_MODEL_MAX
+    tied = [c for c in lcases if model_ok(c)]
+    untied = [c for c in lcases if not model_ok(c)]
     for k in range(nshard_long):
         for nm, cs, nomodel in (("long", tied, False), ("longmon", untied, True)):
             part = cs[k::nshard_long]
-            if part and (not nomodel or k < 4):
+            nmon = 4 if run.tier == "quick" else 16
+            if part and (not nomodel or k < nmon):
                 if nomodel:
-                    part = cs[k::4]
+                    part = cs[k::nmon]
                 add_spec("%s%02d" % (nm, k), mode="long", no_model=nomodel,
                          cases=[[[[ord(c) for c in u], n] for u, n in segs] for _l, segs in part])
     # exhaustive shards
